@@ -17,5 +17,6 @@ class TypingExtensionsOverlay(typing_overlay.Redirect):
       # Pretending that the backports are in typing is easier than remembering
       # to check for both typing.X and typing_extensions.X every time we match
       # on an abstract value.
-      val.module = "typing"
+      if val.module != "builtins":
+        val.module = "typing"
     return var
